@@ -48,7 +48,7 @@ def showOutcome : Outcome → String
   | .err .driverEnded => "err:DriverEnded"
   | .err .nativeTls => "err:NativeTLS"
   | .err .timeout => "err:Timeout"
-  | .panic => "panic"
+  | .err .notLdapResult => "err:Io"
   | .hang => "hang"
 
 def showResult (r : Result) : String :=
